@@ -341,7 +341,9 @@ theorem quadReal_bZeroImag_conj (sqrt : K → K) (eps a b c : K) (h : branchOf e
 acceptance predicate says yes then there are exactly degree-many roots and each satisfies the residual bound. -/
 theorem polyAccept_sound (tol : Rat) (coeffs roots : List (Cx Rat)) (h : polyAccept tol coeffs roots = true) :
     roots.length + 1 = coeffs.length ∧
-    ∀ z ∈ roots, Cx.normSq (hornerCx coeffs z) ≤ (tol * scaleAt coeffs z) * (tol * scaleAt coeffs z) := by
+    ∀ z ∈ roots, Cx.normSq (hornerCx coeffs z) * (condDen coeffs z * condDen coeffs z) ≤
+      (tol * scaleAt coeffs z * (condDen coeffs z + scaleAt coeffs z)) *
+      (tol * scaleAt coeffs z * (condDen coeffs z + scaleAt coeffs z)) := by
   unfold polyAccept at h
   simp only [Bool.and_eq_true, beq_iff_eq, List.all_eq_true] at h
   refine ⟨h.1, fun z hz => ?_⟩
